@@ -237,7 +237,11 @@ def history(ctx, rng):
     for i in range(n):
         c = rng.random()
         if c < 0.06:
-            steps.append({"m": "disconnect", "a": []})
+            step = {"m": "disconnect", "a": []}
+            if rng.random() < 0.3:
+                step["faults"] = [{"op": "close", "at": 0, "kind": "raise",
+                                   "exc": rng.choice(["SerialException", "PortNotOpenError"])}]
+            steps.append(step)
         elif c < 0.11:
             steps.append({"m": "connect", "a": []})
         elif c < 0.14:
